@@ -199,6 +199,8 @@ def acceptance_tables(ctx, g):
                     return dv
                 if (y[0] == "field" and strip(y[1]) == dset and y[2] == "size") or (y[0] == "call" and y[1].endswith("::size") and strip(y[2][0]) == dset):
                     return sz
+                if spec is not None and y == ("field", spec, "size"):
+                    return sz        # dset = PartialDSet::new(spec.size, spec.dim)
                 if y[0] == "call" and y[1].endswith("op_unchecked") and strip(y[2][2]) == di:
                     return ent
                 if y[0] == "call" and y[1].endswith("op_unchecked") and strip(y[2][2]) == d_t:
@@ -240,9 +242,9 @@ def acceptance_tables(ctx, g):
             else:
                 def val3(mv, rv, vcur):
                     def f(y):
-                        if y == m_t:
+                        if unov_deep(strip(y)) == m_t:
                             return mv
-                        if y == r_t:
+                        if unov_deep(strip(y)) == r_t:
                             return rv
                         if y[0] == "call" and y[1].endswith("PartialEq::eq") and any(is_call(strip(z), "DSym::v") for z in y[2]):
                             return vcur
@@ -394,6 +396,9 @@ def run(ctx):
             for a in body.facts_at(bi):
                 a = atom_norm(a, g)
                 if a[0] == "rel" and a[1] == "Eq" and a[3] == ("int", 0) and a[2] == ("binop", "Rem", m, r):
+                    ok = True
+                # m and r are usize (set_v's parameter type): `!(m % r > 0)` and `m % r < 1` say the same
+                if a[0] == "rel" and a[2] == ("binop", "Rem", m, r) and ((a[1] == "Le" and a[3] == ("int", 0)) or (a[1] == "Lt" and a[3] == ("int", 1))):
                     ok = True
         ctx.ob("T3-degree-multiple", ENTRY, "set_v(i, d, m / r)", "ok" if ok else "violation",
                "the stored branching number m / r is dominated by m % r == 0 on the same m and r" if ok else
